@@ -112,10 +112,29 @@ func (s *statusWriter) Flush() {
 	}
 }
 
+// noteMu guards OriginReq.Note: scripts annotate a request while other goroutines snapshot the log.
+var noteMu sync.Mutex
+
+// SetNote annotates the request (thread-safe with respect to log snapshots).
+func (r *OriginReq) SetNote(s string) {
+	noteMu.Lock()
+	r.Note = s
+	noteMu.Unlock()
+}
+
+// AppendNote appends to the annotation.
+func (r *OriginReq) AppendNote(s string) {
+	noteMu.Lock()
+	r.Note += s
+	noteMu.Unlock()
+}
+
 // Log returns a snapshot of the request log.
 func (o *Origin) Log() []OriginReq {
 	o.mu.Lock()
 	defer o.mu.Unlock()
+	noteMu.Lock()
+	defer noteMu.Unlock()
 	out := make([]OriginReq, len(o.log))
 	for i, r := range o.log {
 		out[i] = *r
@@ -140,6 +159,8 @@ func (o *Origin) Count(match func(*OriginReq) bool) int {
 func (o *Origin) Since(seq int) []OriginReq {
 	o.mu.Lock()
 	defer o.mu.Unlock()
+	noteMu.Lock()
+	defer noteMu.Unlock()
 	var out []OriginReq
 	for _, r := range o.log {
 		if r.Seq > seq {
